@@ -400,6 +400,10 @@ def stack(arrays, axis=None, keys=None, align=False, **kwargs):
         kwargs['strict'] = True
         arrays = align_(arrays, **kwargs)
 
+    # same dimensions listed in a different order: match them by name, not by position
+    dims0 = arrays[0].dims
+    arrays = [a if a.dims == dims0 or set(a.dims) != set(dims0) else a.transpose(dims0) for a in arrays]
+
     # make it a numpy array
     data = [a.values for a in arrays]
     data = np.array(data)
@@ -514,6 +518,10 @@ def concatenate(arrays, axis=0, _no_check=False, align=False, **kwargs):
             arrays[i] = DimArray(a)
         if not isinstance(a, DimArray):
             raise ValueError("concatenate: expected DimArray. Got {}".format(type(a)))
+
+    # same dimensions listed in a different order: match them by name, not by position
+    dims0 = arrays[0].dims
+    arrays = [a if a.dims == dims0 or set(a.dims) != set(dims0) else a.transpose(dims0) for a in arrays]
 
     if type(axis) is not int:
         axis = arrays[0].dims.index(axis)
